@@ -86,8 +86,8 @@ def pick_name(rng):
                        b"sub/" * 1020 + b"x", b"./" * 2040 + b"q", b"P" * 4080, b"../" * 30 + b"far"])
 
 
-def num(rng, v):
-    r = rng.random()
+def num(rng, v, clean=False):
+    r = 0.0 if clean else rng.random()
     if r < 0.85:
         return b"%d" % v
     if r < 0.9:
@@ -98,8 +98,8 @@ def num(rng, v):
                        b"18446744073709551615", b"18446744073709551617", b"-1", b"1e3", b"0x10"])
 
 
-def t_record(rng):
-    r = rng.random()
+def t_record(rng, clean=False):
+    r = rng.random() * (0.7 if clean else 1.0)
     sec = rng.choice([1234567890, 1100000000 + rng.randrange(10**8), 0, 1, 2147483647, 2147483648, 2**33, 2**40])
     if r < 0.7:
         return b"T%d 0 %d 0\n" % (sec, sec + 5)
@@ -111,15 +111,19 @@ def t_record(rng):
                        b"T1 0 99999999999999999999 0\n", b"T-1 0 1 0\n"])
 
 
-def mode_field(rng):
-    r = rng.random()
+def mode_field(rng, clean=False):
+    r = rng.random() * (0.88 if clean else 1.0)
     if r < 0.88:
         return b"%04o" % rng.choice([0o644, 0o755, 0o600, 0o700, 0, 0o7777, 0o4755, 0o2775, 0o1777,
                                      rng.randrange(0o10000)])
     return rng.choice([b"644", b"00644", b"0648", b"064a", b"", b"-644", b" 644", b"\xff644"])
 
 
-def file_record(rng, last):
+def file_record(rng, last, clean=False):
+    if clean:
+        n = rng.choice(SIZES) if rng.random() < 0.6 else rng.randrange(0, 40)
+        data = bytes(rng.choice(b"abc\n\0 CDET019") for _ in range(min(n, 64))) * (n // 64 + 1)
+        return b"C" + mode_field(rng, True) + b" %d " % n + pick_name(rng) + b"\n" + data[:n] + b"\0"
     n = rng.choice(SIZES) if rng.random() < 0.8 else rng.randrange(0, 40)
     if rng.random() < 0.03:
         n = rng.choice([3 * 8192 - 1, 3 * 8192, 3 * 8192 + 1])
@@ -138,19 +142,19 @@ def file_record(rng, last):
     return b"C" + mode_field(rng) + sep1 + size + sep2 + pick_name(rng) + b"\n" + data + resp
 
 
-def gen_items(rng, depth):
+def gen_items(rng, depth, clean=False):
     out = []
     for _ in range(rng.choice([1, 1, 2, 2, 3, 4, 6])):
-        r = rng.random()
+        r = rng.random() * (0.86 if clean else 1.0)
         if r < 0.16:
-            out.append(t_record(rng))
+            out.append(t_record(rng, clean))
         elif r < 0.58:
-            out.append(file_record(rng, False))
+            out.append(file_record(rng, False, clean))
         elif r < 0.80 and depth < 4:
-            sep = b" " if rng.random() < 0.97 else b""
-            out.append(b"D" + mode_field(rng) + sep + num(rng, 0) + b" " + pick_name(rng) + b"\n")
-            out += gen_items(rng, depth + 1)
-            if rng.random() < 0.85:
+            sep = b" " if clean or rng.random() < 0.97 else b""
+            out.append(b"D" + mode_field(rng, clean) + sep + num(rng, 0, clean) + b" " + pick_name(rng) + b"\n")
+            out += gen_items(rng, depth + 1, clean)
+            if clean or rng.random() < 0.85:
                 out.append(b"E\n")
         elif r < 0.86:
             out.append(rng.choice([b"E\n", b"E\n", b"Exyz\n", b"\2\n", b"\2stop\n"]))
@@ -175,6 +179,9 @@ def gen_stream(rng):
         # a record longer than the buffer: split at BUFSIZ-1 bytes by the reader
         return b"C0644 0 " + b"Z" * rng.choice([pcp.BUFSIZ - 12, pcp.BUFSIZ - 10, pcp.BUFSIZ - 9, pcp.BUFSIZ, 2 * pcp.BUFSIZ]) \
             + b"\n\0" + b"C0644 1 a\nA\0"
+    if r < 0.50:
+        # syntactically valid record sequences: only the names (and the file system they meet) are hostile
+        return b"".join(gen_items(rng, 0, True))
     s = b"".join(gen_items(rng, 0))
     m = rng.random()
     if m < 0.12 and s:
